@@ -259,6 +259,26 @@ func (Prop) Run(t *core.Tape, o core.RunOpts) *core.Result {
 					return
 				}
 			}
+			// configuration and maintenance calls a tree has added (Reseed(), SetLanes(n),
+			// StartReseeding(every)): made by the callers, between their ID calls, while the others
+			// generate. What such a call does with an odd argument is its own business: a panic
+			// out of it is not held against the property.
+			if len(ExtraControls) > 0 && t.Bool(1, 6) {
+				k := t.Choose(len(ExtraControls))
+				a := [...]int{1, 2, 3, 4, 0, 5, 8, 16}[t.Choose(8)]
+				res.Probes.Inc("extra_control_called")
+				func() {
+					defer func() {
+						if r := recover(); r != nil {
+							res.Probes.Inc("extra_control_panicked")
+						}
+					}()
+					ExtraControls[k](a)
+				}()
+				if s.Aborted() {
+					return
+				}
+			}
 			// mostly RandomID; sometimes another exported function of the package that hands
 			// out IDs, if the tree under test has one
 			var ids []uu.ID
@@ -296,7 +316,7 @@ func (Prop) Run(t *core.Tape, o core.RunOpts) *core.Result {
 					return
 				}
 				// I4 duplicates: only where every honest draw is distinct by construction
-				if entropy == vrand.EUniform {
+				if entropy == vrand.EUniform && !vrand.SeedAliased {
 					if prev, dup := seen[id]; dup {
 						s.Fail("I4-duplicate", "duplicate", fmt.Sprintf("t%d call %d returned %016x%016x, already returned by t%d earlier in this run (uniform entropy: every honest draw is distinct)", task, c, id.Higher, id.Lower, prev))
 						return
